@@ -100,7 +100,16 @@ def concat(interp, a, b):
             return get(interp2, a, idx_term)
         return get(interp2, b, z3.simplify(idx_term - la))
 
-    return SList(z3.simplify(la + lb), elem, uid)
+    out = SList(z3.simplify(la + lb), elem, uid)
+    out.parts = parts_of(a) + parts_of(b)
+    return out
+
+
+def parts_of(v):
+    """Structural normal form of a (concatenated) sequence: pieces in order."""
+    if isinstance(v, SList):
+        return list(v.parts) if v.parts is not None else [('base', v)]
+    return [('elem', x) for x in v]
 
 
 def binop(interp, opcls, a, b):
